@@ -9,6 +9,9 @@ always reverted (git checkout -- . && git clean -fd inside /repo).
 import json, os, re, subprocess, sys, time
 
 VERIF = os.path.dirname(os.path.dirname(os.path.abspath(__file__)))
+# SEED_REPO: run against a scratch worktree of /repo instead of /repo itself
+# (needed while a background run is using /repo); default is /repo.
+REPO = os.environ.get("SEED_REPO", "/repo")
 ALL = ["C%02d" % i for i in range(1, 21)]
 
 
@@ -33,11 +36,11 @@ def main():
             i += 1
         else:
             i += 1
-    st = sh("git -C /repo status --porcelain").stdout.strip()
+    st = sh("git -C %s status --porcelain" % REPO).stdout.strip()
     if st:
         print("REFUSING: /repo is not clean:\n" + st)
         sys.exit(2)
-    r = sh("git -C /repo apply " + patch)
+    r = sh("git -C %s apply %s" % (REPO, patch))
     if r.returncode != 0:
         print("PATCH DOES NOT APPLY:", r.stderr)
         sys.exit(2)
@@ -49,7 +52,7 @@ def main():
             print("baseline:", result["baseline"])
         for c in checks:
             t = time.time()
-            r = sh("cd %s && ./run %s %s" % (VERIF, c, tier))
+            r = sh("cd %s && VERIF_REPO=%s ./run %s %s" % (VERIF, REPO, c, tier))
             sigs = sorted(set(re.findall(r"VIOLATION property=\S+ replay=\S+ signature=(\S+)", r.stdout)))
             build_failed = "BUILD-FAILED" in r.stderr
             result["checks"][c] = {"exit": r.returncode, "signatures": sigs, "wall_s": round(time.time() - t, 1), "build_failed": build_failed}
@@ -59,7 +62,7 @@ def main():
             print("%s exit=%d wall=%.1fs signatures=%s%s" % (c, r.returncode, time.time() - t, sigs[:6], extra))
             sys.stdout.flush()
     finally:
-        sh("git -C /repo checkout -- . && git -C /repo clean -fdq")
+        sh("git -C %s checkout -- . && git -C %s clean -fdq" % (REPO, REPO))
     print("RESULT " + json.dumps(result))
 
 
